@@ -217,12 +217,14 @@ def _ordc(c):
 
 
 # ---------------------------------------------------------------- self test against the repository's own vectors
-def selftest(repo="/repo"):
+def selftest(repo=None):
     """Replay tests/standardized/fcp_tests.json and the byte vectors of tests/test_serde.py through refspec.
 
     Returns (n_vectors, mismatches[list of str]).  A mismatch is a harness error (exit 2), not a finding."""
     from .fromfcp import schema_from_fcp_text
+    from .common import REPO
 
+    repo = repo or REPO
     bad, n = [], 0
     suites = json.load(open(f"{repo}/tests/standardized/fcp_tests.json"))
     for suite in suites:
